@@ -164,6 +164,13 @@ class SymbolTable:
     _is_context_boundary: bool = False
     _parent: Optional["SymbolTable"] = None
     _table: MutableMapping[sym.Symbol, SymbolTableEntry] = attr.ib(factory=dict)
+    _python_names: set[str] = attr.ib(factory=set)
+
+    def new_python_name(self, name: str) -> "SymbolTable":
+        """Record a Python local of this frame which no Lisp symbol refers to (the raw
+        rest parameter of a function, whose value is bound to a generated local)."""
+        self._python_names.add(name)
+        return self
 
     def new_symbol(self, s: sym.Symbol, munged: str, ctx: LocalType) -> "SymbolTable":
         if s in self._table:
@@ -186,6 +193,8 @@ class SymbolTable:
         let binding, etc.) in this frame or any enclosing frame below the top level."""
         if self._parent is None:
             return False
+        if name in self._python_names:
+            return True
         if any(entry.munged == name for entry in self._table.values()):
             return True
         return self._parent.is_local_python_name(name)
@@ -1788,6 +1797,9 @@ def __fn_args_to_py_ast(
             ctx.symbol_table.new_symbol(
                 sym.symbol(binding.name), safe_local, LocalType.ARG
             )
+            # The rest parameter itself keeps its (munged) source name, which hides a Var
+            # of the same name just as any other local does
+            ctx.symbol_table.new_python_name(arg_name)
 
     body_ast = _synthetic_do_to_py_ast(ctx, body)
     fn_body_ast.extend(map(statementize, body_ast.dependencies))
